@@ -3,6 +3,7 @@ application of spec actions to the object, and a fingerprint of the *concrete*
 representation (dictionary kinds, insertion order, list aliasing) used to deduplicate the
 bounded-exhaustive exploration of histories."""
 import copy
+from collections import defaultdict as _defaultdict
 
 
 def key_of(st):
@@ -16,6 +17,62 @@ def fsa_mod():
 
 def _lists_of(d):
     return d.items()
+
+
+_ATOMS = frozenset((int, str, float, bool, type(None), bytes, complex, type, range, type(len), type(lambda: 0)))
+
+
+_PLAIN = {}
+
+
+def _is_plain(t):
+    r = _PLAIN.get(t)
+    if r is None:
+        r = (getattr(t, "__module__", "").startswith("geometry_tools") and getattr(t, "__deepcopy__", None) is None
+             and t.__reduce_ex__ is object.__reduce_ex__ and t.__reduce__ is object.__reduce__
+             and t.__getstate__ is object.__getstate__ and getattr(t, "__setstate__", None) is None
+             and not hasattr(t, "__slots__"))
+        _PLAIN[t] = r
+    return r
+
+
+def clone(x, memo=None):
+    """copy.deepcopy specialised to what an FSA is made of (plain objects, dict, defaultdict, list and atoms),
+    used only to branch the exploration of histories.  Same contract as deepcopy: one copy per distinct object
+    (list aliasing between the views is preserved), dictionary kinds, default factories and insertion order are
+    kept; anything it does not know (other containers, classes with their own __deepcopy__ / __reduce__) is
+    handed to copy.deepcopy with the same memo."""
+    if memo is None:
+        memo = {}
+    t = type(x)
+    if t in _ATOMS:
+        return x
+    y = memo.get(id(x))
+    if y is not None:
+        return y
+    if t is list:
+        y = []
+        memo[id(x)] = y
+        for e in x:
+            y.append(e if type(e) in _ATOMS else clone(e, memo))
+    elif t is dict:
+        y = {}
+        memo[id(x)] = y
+        for k, v in x.items():
+            y[k if type(k) in _ATOMS else clone(k, memo)] = v if type(v) in _ATOMS else clone(v, memo)
+    elif t is _defaultdict:
+        y = _defaultdict(x.default_factory if type(x.default_factory) in _ATOMS else clone(x.default_factory, memo))
+        memo[id(x)] = y
+        for k, v in x.items():
+            y[k if type(k) in _ATOMS else clone(k, memo)] = v if type(v) in _ATOMS else clone(v, memo)
+    elif _is_plain(t):
+        # a plain object: deepcopy would rebuild it with __new__ and a deep copy of its __dict__
+        y = t.__new__(t)
+        memo[id(x)] = y
+        y.__dict__.update(clone(x.__dict__, memo))
+    else:
+        y = copy.deepcopy(x, memo)
+    return y
 
 
 def fingerprint(f):
